@@ -24,7 +24,8 @@ FEATURES = {
     "cons": ["c", "none", "disc", "period", "param", "aux"],
     "aux": ["one", "none", "chain", "period", "const"],
     "trans": ["default", "identity", "period", "param"],
-    "pnames": ["distinct", "collide"],
+    # "beta": every function parameter is called `beta` (a legal name; must not be confused with the discount factor)
+    "pnames": ["distinct", "collide", "beta"],
     "order": ["default", "srev", "crev", "frev"],
     "uperiod": [0, 1],
 }
@@ -84,7 +85,9 @@ def make_source(fv):
     funcs = []
 
     def pn(default):
-        return "a" if fv["pnames"] == "collide" else default
+        return {"collide": "a", "beta": "beta"}.get(fv["pnames"], default)
+
+    ua = "beta" if fv["pnames"] == "beta" else "a"
 
     # ---------------- auxiliary functions
     aux_arg = None
@@ -137,7 +140,7 @@ def make_source(fv):
 
     # ---------------- utility
     uargs = ["s", "w", "d"]
-    terms = ["a * 0.31 * d * (s + 1)", "- 0.052 * d"]
+    terms = [f"{ua} * 0.31 * d * (s + 1)", "- 0.052 * d"]
     terms.append("+ 0.21 * w * (1 + 0.5 * s)" if wdisc else "+ 0.0137 * w * (1 + 0.5 * s)")
     if has_g:
         uargs.append("g")
@@ -169,13 +172,13 @@ def make_source(fv):
     for name, args, expr in cons_exprs:
         for a_ in args:
             if a_ not in uargs:
-                if a_ in ("budget",) or a_ in ("slack", "a"):
+                if a_ in ("budget",) or a_ in ("slack", "a", "beta"):
                     continue
                 uargs.append(a_)
         if all(a_ in uargs for a_ in args):
             terms.append(f"+ 50.0 * (1 - ({expr}))")
-    uargs.append("a")
-    P["utility"] = {"a": 1.3}
+    uargs.append(ua)
+    P["utility"] = {ua: 1.3}
     L.append(f"def utility({', '.join(uargs)}):\n    return (" + "\n        ".join(terms) + "\n    )")
     funcs.insert(0, "utility")
 
